@@ -516,16 +516,18 @@ class Tifa(TifaCore, ast.NodeVisitor):
         comparators = [self.visit(compare) for compare in node.comparators]
 
         # Handle ops
+        # In a chain (a < b < c) each comparison is between its own two neighbours
         for op, right in zip(node.ops, comparators):
+            current, left = left, right
             if isinstance(op, (ast.Eq, ast.NotEq, ast.Is, ast.IsNot)):
                 continue
             elif isinstance(op, (ast.Lt, ast.LtE, ast.GtE, ast.Gt)):
-                if type(right) in left.orderable:
+                if type(right) in current.orderable:
                     continue
             elif isinstance(op, (ast.In, ast.NotIn)):
-                if right.allows_membership(left):
+                if right.allows_membership(current):
                     continue
-            self._issue(incompatible_types(self.locate(), op, left, right, report=self.report))
+            self._issue(incompatible_types(self.locate(), op, current, right, report=self.report))
         return BoolType()
 
     def visit_comprehension(self, node):
